@@ -748,7 +748,7 @@ Definition md_values (key : str) (v : aval) : list str :=
   | VStr ls => ls
   | VList l => l
   | VOne x => [x]
-  | VDict d => map (fun kv => fst kv ++ s " " ++ sep_of key ++ s " " ++ snd kv) d
+  | VDict d => map (fun kv => fst kv ++ sep_of key ++ snd kv) d
   | VFT l => map ft_line l
   end.
 Definition enc_md (key : str) (v : aval) : list str := md_block key (md_values key v).
@@ -798,10 +798,11 @@ Definition wt_value (key : str) (t : tyclass) (v : aval) : bool :=
   | (TListStr | TListPath | TListAny), VList l => pieces l
   | (TListStr | TListPath), VOne x => piece x
   | TDictStr, VDict d =>
-    match sep_of key with
-    | [sep] =>
-      forallb (fun kv => piece (fst kv) && piece (snd kv)
-                         && negb (existsb (Ascii.eqb sep) (fst kv))) d
+    match aget key option_separators with
+    | Some [sep] =>
+      negb (is_space sep)
+      && forallb (fun kv => piece (fst kv) && piece (snd kv)
+                            && negb (existsb (Ascii.eqb sep) (fst kv))) d
       && nodup_strs (map fst d)
     | _ => false
     end
